@@ -35,7 +35,8 @@ def main(argv: list[str] | None = None) -> int:
     try:
         ctx = Context(tier=args.tier)
         rep.analysed = ctx.analysed()
-        mod.run(ctx, rep)
+        from sa.report import run_rules
+        run_rules(mod, ctx, rep, pid)
         if rep.unmet_floors() and not rep.violations:
             raise AnalysisError("instance floor not met (rule matched fewer "
                                 "sites than confirmed by hand): " +
